@@ -181,7 +181,7 @@ def classify_loop(ctx, lp):
 
 
 def r9_1(ctx):
-    ctx.begin("R9.1", "iterations over unordered collections have order-insensitive bodies", floor=3)
+    ctx.begin("R9.1", "iterations over unordered collections have order-insensitive bodies", floor=1)
     f_sim, loop = sim_loop(ctx)
     funcs = {id(g.node): g for g in sim_reach(ctx, precise=True)}
     for name in ("backward_simulate", "simulate"):
@@ -190,6 +190,10 @@ def r9_1(ctx):
     for g in ctx.eff.reachable([ctx.repo.method(WORKFLOW, "update_PERT_data"), ctx.repo.method(WORKFLOW, "initialize")], precise=True):
         funcs[id(g.node)] = g
     loops = unordered_loops(ctx, funcs.values())
+    # (the number of unordered iterations may legitimately go down to zero -- a set replaced by a list; the searched region is the
+    # instance that must not vanish)
+    ctx.instance("searched-functions", cells=len(funcs), sample={"functions": len(funcs), "unordered_loops": len(loops)})
+    ctx.require(len(funcs) >= 20, f"the region searched for unordered iterations shrank to {len(funcs)} functions")
     by_func = {}
     for g, n in loops:
         by_func.setdefault(id(g.node), (g, []))[1].append(n)
